@@ -500,15 +500,10 @@ def keysTruncatedAcross (c : Case) (spec out : List Row) : Bool :=
   keyIdx.length ≥ 2 && !sameMultiset spec out &&
     sameMultiset (regroup c.sel (truncKeys keyIdx spec)) (regroup c.sel (truncKeys keyIdx out))
 
-/-- `executor-pinned-buffer` (C04/C11/C02), input trigger: a grouping column is also the input of a SUM/MIN/MAX of the same
-    query; the planner shares the scalar offset of its Add codec between the pre- and post-grouping decode and the stage
-    partitioner glues both into one streaming stage (`Trying to mutably borrow pinned buffer`, worker panic) in every
-    partition that stores the column offset-coded. -/
-def pinnedKeyAggregate (c : Case) : Bool :=
-  let keys := keyCols c
-  c.sel.any fun
-    | .agg a => (a.fn = .sum || a.fn = .min || a.fn = .max) && keys.contains a.col
-    | .key _ => false
+/-! (`executor-pinned-buffer` (C04/C11/C02) — a grouping column that is also a SUM/MIN/MAX input, stored offset-coded: the shared
+    scalar offset glued the pre- and post-grouping decode into one streaming stage, worker panic `Trying to mutably borrow
+    pinned buffer` — was repaired in /repo 186ef0c (stage membership is no longer propagated through scalar buffers); its
+    classifier `pinnedKeyAggregate` has been removed, the witness stays in the corpus.) -/
 
 /-- The finding that explains why realisation `r` deviates from `spec`, or "". -/
 def classifyGrp (c : Case) (spec : Res (List Row)) (r : Real) : String :=
@@ -536,14 +531,12 @@ def classifyGrp (c : Case) (spec : Res (List Row)) (r : Real) : String :=
   | .ok _, none =>
       if may && r.out = "err:overflow" then "sum-overflow-order"
       else if whereNullPartition c r && (r.out = "err:fatal" || r.out = "err:canceled" || r.out = "panic") then "where-null-partition-empty"
-      else if pinnedKeyAggregate c && (r.out = "err:canceled" || r.out = "panic" || r.out = "hang") then "executor-pinned-buffer"
       else if absentSelected c r.split then "groupby-absent-column"
       else ""
   | .overflow, some _ => if sentinelPartial c r.split then "sum-sentinel" else if may then "sum-overflow-order" else ""
   -- the reference fails with Overflow but this layout fails earlier with another error
   | .overflow, none =>
       if absentSelected c r.split then "groupby-absent-column"
-      else if pinnedKeyAggregate c && (r.out = "err:canceled" || r.out = "panic" || r.out = "hang") then "executor-pinned-buffer"
       else ""
   | _, _ => ""
 
